@@ -71,7 +71,8 @@ def run(rep, tier, seed):
     rd = tlc_family(rep, "MC_Totality", {"Family": "depth", "Tier": tier}, ["Total", "Export"], "c01-depth")
     rx = tlc_family(rep, "MC_Totality", {"Family": "lex", "Tier": tier}, ["Total", "Export"], "c01-lex")
     re_ = tlc_family(rep, "MC_Totality", {"Family": "exprlex", "Tier": tier}, ["Total", "Export"], "c01-exprlex")
-    for x in (rd, rx, re_):
+    rn_ = tlc_family(rep, "MC_Totality", {"Family": "exprnum", "Tier": tier}, ["Total", "Export"], "c01-exprnum")
+    for x in (rd, rx, re_, rn_):
         if not x.ok:
             raise vlib.ToolError(f"Totality.tla: {x.violated}")
         rep.add_tlc(x, "Totality.tla outcome sets")
@@ -106,6 +107,10 @@ def run(rep, tier, seed):
     for j, c in enumerate(lex):
         data = totc.lex_doc(c["toks"], c["nonutf8"], c["root"])
         cases.append({"k": f"lex-{j}", "b64": vlib.b64(data), "cfg": {}, "what": f"lex:{c['nonutf8']}", "allowed": c["allowed"]})
+    en = rn_.replay
+    for j, c in enumerate(en):
+        cases.append({"k": f"exprnum-{j}", "b64": vlib.b64(totc.exprnum_doc(c)), "cfg": {"loop_limit": 50}, "what": f"exprnum:{c['fn']}",
+                      "allowed": c["allowed"], "timeout_ms": 20000})
     el = re_.replay
     if not big and len(el) > 5000:
         el = rnd.sample(el, 5000)
